@@ -1,6 +1,7 @@
 package main
 
 import (
+	"time"
 	"flag"
 	"fmt"
 	"os"
@@ -33,9 +34,29 @@ func scratchDir(name string) string {
 		base = filepath.Join(verifDir(), ".scratch")
 	}
 	d := filepath.Join(base, name)
+	if strings.HasPrefix(name, "check-") || strings.HasPrefix(name, "houdini-") {
+		// two runs of the same check at the same time must not share query files
+		d = filepath.Join(base, fmt.Sprintf("%s.%d", name, os.Getpid()))
+		staleScratch(base, name)
+	}
 	os.RemoveAll(d)
 	os.MkdirAll(d, 0o755)
 	return d
+}
+
+// staleScratch removes per-process scratch directories of this name that are older than an hour.
+func staleScratch(base, name string) {
+	ents, err := os.ReadDir(base)
+	if err != nil {
+		return
+	}
+	for _, en := range ents {
+		if strings.HasPrefix(en.Name(), name+".") {
+			if info, err := en.Info(); err == nil && time.Since(info.ModTime()) > time.Hour {
+				os.RemoveAll(filepath.Join(base, en.Name()))
+			}
+		}
+	}
 }
 
 // cmdVerify: govc verify [-t secs] [-keep] <pkgpath> <func>...  (development aid)
